@@ -254,3 +254,196 @@ Proof.
   destruct (rel (clean root) (clean p)) as [cs|]; [|discriminate].
   cbn [negb andb] in *. destruct (starts_dotdot cs); [now right|now left].
 Qed.
+
+(** * the repair rejects ONLY references that resolve outside the root *)
+
+(** cleaned lists, with the rooted refinement: a rooted cleaned path has no ".." at all *)
+Definition shape (r : bool) (l : list str) : Prop :=
+  exists ds ns, l = ds ++ ns /\ Forall isdd ds /\ Forall nodd ns /\ (r = true -> ds = []).
+
+Definition stk_ok_r (r : bool) (stk : list str) : Prop :=
+  exists ns ds, stk = ns ++ ds /\ Forall nodd ns /\ Forall isdd ds /\ (r = true -> ds = []).
+
+Lemma push_ok_r : forall r stk c, stk_ok_r r stk -> stk_ok_r r (push r stk c).
+Proof.
+  intros r stk c (ns & ds & -> & Hns & Hds & Hr). unfold push. destruct (is_dotdot c) eqn:Ec.
+  - destruct ns as [|n ns'].
+    + cbn [app]. destruct ds as [|d ds'].
+      * destruct r; [exists [], []; repeat split; constructor|].
+        exists [], [c]. repeat split; try constructor; try assumption; try constructor. discriminate.
+      * destruct r; [specialize (Hr eq_refl); discriminate|].
+        inversion Hds as [|? ? Hd Hds']; subst. unfold isdd in Hd. rewrite Hd.
+        exists [], (c :: d :: ds'). repeat split; [constructor| |discriminate]. constructor; [exact Ec|assumption].
+    + cbn [app]. inversion Hns as [|? ? Hn Hns']; subst. unfold nodd in Hn. rewrite Hn.
+      exists ns', ds. repeat split; assumption.
+  - exists (c :: ns), ds. repeat split; try assumption. constructor; assumption.
+Qed.
+
+Lemma clean_comps_shape_r : forall r cs, shape r (clean_comps r cs).
+Proof.
+  intros r cs. unfold clean_comps.
+  assert (H : stk_ok_r r (fold_left (push r) cs [])).
+  { assert (H0 : stk_ok_r r []) by (exists [], []; repeat split; constructor).
+    revert H0. generalize (@nil str). induction cs as [|c cs IH]; intros stk H0; [exact H0|].
+    cbn [fold_left]. apply IH. now apply push_ok_r. }
+  destruct H as (ns & ds & E & Hns & Hds & Hr). rewrite E, rev_app_distr.
+  exists (rev ds), (rev ns). repeat split; try (now apply Forall_rev).
+  intros Hr'. now rewrite (Hr Hr').
+Qed.
+
+Lemma shape_prefix : forall r c x, shape r (c ++ x) -> shape r c.
+Proof.
+  intros r c x (ds & ns & E & Hds & Hns & Hr). revert c E Hr.
+  induction Hds as [|d ds Hd Hds IH]; intros c E Hr.
+  - cbn [app] in E. exists [], c. repeat split; try constructor; [|auto].
+    subst ns. apply Forall_app in Hns. tauto.
+  - destruct c as [|y c'].
+    + exists [], []. repeat split; constructor.
+    + cbn [app] in E. injection E as -> E.
+      assert (Hr' : r = true -> ds = []) by (intros Hq; specialize (Hr Hq); discriminate).
+      destruct r; [specialize (Hr eq_refl); discriminate|].
+      destruct (IH c' E ltac:(discriminate)) as (ds' & ns' & E' & Hds' & Hns' & _).
+      exists (d :: ds'), ns'. repeat split; try assumption; [now rewrite E'|now constructor|discriminate].
+Qed.
+
+Lemma fold_push_dd : forall ds stk, Forall isdd ds -> Forall isdd stk ->
+  fold_left (push false) ds stk = rev ds ++ stk.
+Proof.
+  induction ds as [|d ds IH]; intros stk Hds Hstk; [reflexivity|]. cbn [fold_left rev].
+  inversion Hds as [|? ? Hd Hds']; subst. unfold isdd in Hd.
+  assert (Ep : push false stk d = d :: stk).
+  { unfold push. rewrite Hd. destruct stk as [|top rest]; [reflexivity|].
+    inversion Hstk as [|? ? Ht _]; subst. unfold isdd in Ht. now rewrite Ht. }
+  rewrite Ep, IH by (try assumption; now constructor). now rewrite <- app_assoc.
+Qed.
+
+(** Clean is idempotent: pushing a cleaned list onto the empty stack rebuilds it *)
+Lemma fold_push_clean : forall r l, shape r l -> fold_left (push r) l [] = rev l.
+Proof.
+  intros r l (ds & ns & -> & Hds & Hns & Hr). rewrite fold_left_app.
+  destruct r.
+  - rewrite (Hr eq_refl). cbn [fold_left app]. rewrite fold_push_nodd by assumption. now rewrite app_nil_r.
+  - rewrite fold_push_dd by (try assumption; constructor). rewrite fold_push_nodd by assumption.
+    now rewrite rev_app_distr, app_nil_r.
+Qed.
+
+Lemma fold_push_suffix : forall r c x, shape r (c ++ x) -> fold_left (push r) x (rev c) = rev (c ++ x).
+Proof.
+  intros r c x H. rewrite <- (fold_push_clean r c (shape_prefix r c x H)), <- fold_left_app.
+  now apply fold_push_clean.
+Qed.
+
+Lemma fold_push_pop : forall r ys stk, Forall nodd ys ->
+  fold_left (push r) (repeat s_dotdot (length ys)) (ys ++ stk) = stk.
+Proof.
+  intros r ys stk H. induction H as [|y ys Hy H IH]; [reflexivity|].
+  cbn [length repeat fold_left app]. unfold push at 2. cbn [is_dotdot str_eqb s_dotdot]. cbn.
+  unfold nodd in Hy. rewrite Hy. exact IH.
+Qed.
+
+Lemma map_const_repeat : forall (b' : list str), map (fun _ => s_dotdot) b' = repeat s_dotdot (length b').
+Proof. induction b' as [|x b' IH]; [reflexivity|]. cbn [map length repeat]. now rewrite IH. Qed.
+
+Lemma strip_common_max : forall b t x b' t', strip_common b t = (x :: b', t') ->
+  match t' with [] => True | y :: _ => str_eqb x y = false end.
+Proof.
+  induction b as [|u b IH]; intros t x b' t' H; cbn [strip_common] in H; [discriminate|].
+  destruct t as [|v t]; [injection H as _ _ <-; exact I|].
+  destruct (str_eqb u v) eqn:E; [now apply (IH t x b' t')|]. injection H as <- _ <-. exact E.
+Qed.
+
+Lemma drop_prefix_common : forall c b t, drop_prefix (c ++ b) (c ++ t) = drop_prefix b t.
+Proof. induction c as [|x c IH]; intros b t; cbn [app drop_prefix]; [reflexivity|]. now rewrite str_eqb_refl. Qed.
+
+Lemma good_dotdot : good s_dotdot.
+Proof. split; [repeat constructor; discriminate|reflexivity]. Qed.
+
+Lemma comps_join2 : forall root cs, Forall good cs -> comps (join2 root (render_rel cs)) = comps root ++ cs.
+Proof.
+  intros root cs Hg. destruct (render_rel_shape cs Hg) as (x & r & Ex & Hx).
+  unfold join2. destruct root as [|y root'].
+  - now rewrite comps_render_rel.
+  - rewrite Ex. rewrite <- Ex. rewrite comps_app, comps_render_rel by assumption. reflexivity.
+Qed.
+
+Lemma rooted_join2 : forall root cs, Forall good cs -> rooted (join2 root (render_rel cs)) = rooted root.
+Proof.
+  intros root cs Hg. destruct (render_rel_shape cs Hg) as (x & r & Ex & Hx).
+  unfold join2. destruct root as [|y root']; rewrite Ex; [|reflexivity]. cbn [rooted]. now apply N.eqb_neq.
+Qed.
+
+Lemma forallb_head_dd : forall x l, is_dotdot x = true -> forallb (fun c => negb (is_dotdot c)) (x :: l) = false.
+Proof. intros x l H. cbn [forallb]. now rewrite H. Qed.
+
+Theorem put_rejected_outside : forall root p s,
+  put true root p = Some s -> put false root p = None -> inside root (resolved root s) = false.
+Proof.
+  intros root p s Hon Hoff. unfold put in *.
+  destruct (has_prefix p root); [|discriminate].
+  destruct (rel (clean root) (clean p)) as [cs|] eqn:Er; [|discriminate].
+  cbn [negb andb] in *. destruct (starts_dotdot cs) eqn:Es; [|discriminate]. injection Hon as <-. clear Hoff.
+  unfold rel in Er. cbn [clean cp_rooted cp_comps] in Er.
+  pose proof (clean_comps_shape_r (rooted root) (comps root)) as HsB.
+  pose proof (clean_comps_shape_r (rooted p) (comps p)) as HsT.
+  assert (HgB : Forall good (clean_comps (rooted root) (comps root))) by (apply clean_comps_Forall, comps_good).
+  assert (HgT : Forall good (clean_comps (rooted p) (comps p))) by (apply clean_comps_Forall, comps_good).
+  set (B := clean_comps (rooted root) (comps root)) in *.
+  set (T := clean_comps (rooted p) (comps p)) in *.
+  destruct (Bool.eqb (rooted root) (rooted p)) eqn:Err; [|discriminate]. cbn [negb] in Er.
+  apply Bool.eqb_prop in Err. rewrite <- Err in HsT.
+  assert (HstkB : fold_left (push (rooted root)) (comps root) [] = rev B).
+  { subst B. unfold clean_comps. now rewrite rev_involutive. }
+  unfold inside, resolved, clean. cbn [cp_rooted cp_comps]. fold B.
+  destruct (negb (rooted p) && is_nil T && negb (is_nil B)) eqn:Ec.
+  - (* the target cleans to "." : reference "../.. /." climbs to the empty relative path *)
+    apply andb_prop in Ec. destruct Ec as [Ec EB]. apply andb_prop in Ec. destruct Ec as [Erp ET].
+    destruct B as [|x B'] eqn:EBv; [discriminate|]. cbn [strip_common] in Er.
+    inversion HgB as [|? ? [_ Hk] _]; subst. rewrite (keep_not_dot x Hk) in Er.
+    destruct (starts_dotdot (x :: B')) eqn:Esb; [discriminate|]. injection Er as <-.
+    assert (HndB : Forall nodd (x :: B')).
+    { destruct HsB as (ds & ns & E & Hds & Hns & _). apply (suffix_nodd ds ns [] (x :: B')); auto. }
+    assert (Hcomps : comps (join2 root (render_rel (map (fun _ => s_dotdot) (x :: B') ++ [s_dot]))) =
+                     comps root ++ map (fun _ => s_dotdot) (x :: B')).
+    { set (dd := map (fun _ : str => s_dotdot) (x :: B')).
+      assert (Hgd : Forall good dd) by (subst dd; rewrite Forall_map; apply Forall_forall; intros; apply good_dotdot).
+      (* render (dd ++ ["."]) = render dd ++ "/." *)
+      assert (Er : render_rel (dd ++ [s_dot]) = render_rel dd ++ sl :: s_dot).
+      { subst dd. cbn [map]. generalize (map (fun _ : str => s_dotdot) B') as l. intros l.
+        unfold render_rel. cbn [app]. revert x. generalize s_dotdot as z.
+        induction l as [|u l IHl]; intros z x0; [reflexivity|].
+        cbn [app intercalate]. destruct (l ++ [s_dot]) eqn:El; [destruct l; discriminate|].
+        rewrite <- El. specialize (IHl u x0). cbn [app] in IHl.
+        destruct l as [|u2 l']; [reflexivity|].
+        cbn [app] in *. rewrite <- app_comm_cons in *. rewrite <- app_assoc. cbn [app]. f_equal. f_equal. exact IHl. }
+      rewrite Er. destruct (render_rel_shape dd Hgd) as (y & r0 & Ey & Hy).
+      unfold join2. destruct root as [|y0 root'].
+      - rewrite Ey. rewrite <- Ey. rewrite comps_app, comps_render_rel by assumption. now rewrite app_nil_r.
+      - rewrite Ey. cbn [app]. rewrite <- Ey.
+        change (y0 :: root' ++ sl :: render_rel dd ++ sl :: s_dot) with ((y0 :: root') ++ sl :: (render_rel dd ++ sl :: s_dot)).
+        rewrite comps_app, comps_app, comps_render_rel by assumption. now rewrite app_nil_r. }
+    assert (Hroot : rooted (join2 root (render_rel (map (fun _ => s_dotdot) (x :: B') ++ [s_dot]))) = rooted root).
+    { unfold join2. destruct root as [|y0 root']; [|reflexivity].
+      exfalso. (* root = "" gives B = [] *) cbn in EBv. discriminate. }
+    rewrite Hroot, Hcomps. unfold clean_comps. rewrite fold_left_app, HstkB, map_const_repeat.
+    rewrite <- (rev_length (x :: B')), <- (app_nil_r (rev (x :: B'))), fold_push_pop by (now apply Forall_rev).
+    cbn [rev drop_prefix]. now rewrite andb_false_r.
+  - destruct (strip_common B T) as [b' t'] eqn:Esc.
+    destruct (starts_dotdot b') eqn:Esb; [discriminate|]. injection Er as <-.
+    destruct (strip_common_spec _ _ _ _ Esc) as (c & EB & ET).
+    assert (Hgt : Forall good t') by (rewrite ET in HgT; apply Forall_app in HgT; tauto).
+    assert (Hndb : Forall nodd b').
+    { destruct HsB as (ds & ns & E & Hds & Hns & _). apply (suffix_nodd ds ns c b'); auto. congruence. }
+    assert (Hgcs : Forall good (map (fun _ => s_dotdot) b' ++ t')).
+    { apply Forall_app. split; [|assumption]. rewrite Forall_map. apply Forall_forall. intros; apply good_dotdot. }
+    rewrite rooted_join2, comps_join2 by assumption.
+    unfold clean_comps. rewrite !fold_left_app, HstkB, map_const_repeat.
+    rewrite EB at 1. rewrite rev_app_distr, <- (rev_length b'), fold_push_pop by (now apply Forall_rev).
+    rewrite (fold_push_suffix (rooted root) c t') by (now rewrite <- ET).
+    rewrite rev_involutive, <- ET. rewrite EB at 1. rewrite ET at 1. rewrite drop_prefix_common.
+    destruct b' as [|x b''].
+    + (* nothing left of the base: the reference itself starts with ".." *)
+      cbn [map app] in Es. cbn [drop_prefix]. destruct t' as [|y t'']; [discriminate|].
+      cbn [starts_dotdot] in Es. rewrite (forallb_head_dd y t'' Es). now rewrite andb_false_r.
+    + pose proof (strip_common_max _ _ _ _ _ Esc) as Hmax. cbn [drop_prefix].
+      destruct t' as [|y t'']; [now rewrite andb_false_r|]. rewrite Hmax. now rewrite andb_false_r.
+Qed.
